@@ -48,7 +48,7 @@ class C16(core.Check):
     chunk = 1200
     required_buckets = {b: 3 for b in ['line>6-bytes', 'line>16-bytes', 'gap-without-org', 'muted-region', 'zero-length-line',
                                        'included-file', 'predefined-data', 'width:4', 'width:8', 'width:12', 'width:16',
-                                       'width:24', 'width:32', 'every-line-length-1..40', 'fmt:listing', 'fmt:hex', 'fmt:intel_hex', 'fmt:minhex',
+                                       'width:24', 'width:32', 'width:20', 'bytes-above-64KiB', 'statement-across-a-64KiB-boundary', 'every-line-length-1..40', 'fmt:listing', 'fmt:hex', 'fmt:intel_hex', 'fmt:minhex',
                                        'image-fill:nonzero', 'width:not-a-multiple-of-4', 'zero-length-at-gap-edge', 'gap:align', 'gap:memzone', 'gap:muted', 'gap:zone-org',
                                        'statement-longer-than-96-bytes', 'long-statement:fill', 'long-statement:cstr',
                                        'stale-longer-output-present', 'image-window-starts-inside-a-statement',
@@ -163,6 +163,31 @@ class C16(core.Check):
             ids = {id(l): ('p.asm', k + 1) for k, l in enumerate(lines)}
             yield self.make_case(isa, {'p.asm': ''.join(l['text'] + '\n' for l in lines)}, 'p.asm', [], res, ids,
                                  {'width:16', 'statement-longer-than-96-bytes', 'long-statement:' + kind})
+
+    def boundary_64k_cases(self):
+        """statements of 1..100 bytes standing before, across and behind a 64 KiB boundary under address widths above 16 (the
+        Intel HEX records carry 16 address bits each; the upper bits come from separate records)"""
+        for ab in (20, 24):
+            for kind in ('data', 'fill', 'cstr'):
+                for base in (0xFFF0, 0xFFFF, 0x10000, 0x1FFF5, 0x2FF9C):
+                    isa = gen_prog.layout_isa(ab)
+                    lines = [{'k': 'data', 'width': 1, 'vals': [0xA1, 0xA2]}, {'k': 'org', 'addr': base, 'zone_name': None}]
+                    for n in (1, 4, 17, 40, 100, 3):
+                        if kind == 'data':
+                            lines.append({'k': 'data', 'width': 1, 'vals': [(n + 3 * j + base) & 0xFF for j in range(n)]})
+                        elif kind == 'fill':
+                            lines.append({'k': 'fill', 'n': n, 'v': (n * 7 + base) & 0xFF or 1})
+                        else:
+                            txt = ''.join(chr(0x41 + (j + n) % 26) for j in range(n - 1))
+                            lines.append({'k': 'bytes', 'bytes': (txt.encode() + b'\0').hex(), 'text': f'.cstr "{txt}"'})
+                    res = layout.layout(lines, ab, origin=0, size_of=lambda l, a: gen_prog.byte_line_size(isa, l))
+                    layout.memory_map(res, lambda l: gen_prog.byte_line_bytes(isa, l, None, {'GLOBAL': (0, (1 << ab) - 1)}))
+                    for l in lines:
+                        l['text'] = gen_prog.render_line(l, None)
+                    ids = {id(l): ('p.asm', k + 1) for k, l in enumerate(lines)}
+                    crossing = any(l['addr'] >> 16 != (l['addr'] + len(l['bytes']) // 2 - 1) >> 16 for l in res.byte_lines if l['bytes'])
+                    yield self.make_case(isa, {'p.asm': ''.join(l['text'] + '\n' for l in lines)}, 'p.asm', [], res, ids,
+                                         {f'width:{ab}', 'bytes-above-64KiB', 'statement-across-a-64KiB-boundary' if crossing else 'statement-next-to-a-64KiB-boundary'})
 
     def nested_mute_include_cases(self):
         """files included at mute depth 0..3 that mute, unmute and include further files themselves: the depth is one counter
@@ -307,6 +332,7 @@ class C16(core.Check):
         yield from self.corpus_cases(tier)
         yield from self.length_cases()
         yield from self.long_statement_cases()
+        yield from self.boundary_64k_cases()
         yield from self.nested_mute_include_cases()
         yield from self.compound_cases(tier, seed)
         yield from self.gap_cases()
